@@ -9,7 +9,7 @@ Section Theorems.
   Variable C : Type.
   Variable D : Type.
   Variable modify : kind -> D -> C -> C.
-  Variable react : list (kind * C) -> kind -> C.
+  Variable react : Z -> Z -> list (kind * C) -> kind -> C.
   Variable M : Type.
   Variable mix_nums : M -> list Z.
   Variable mixf : kind -> M -> list (Z * option C) -> C.
@@ -31,17 +31,17 @@ Section Theorems.
 
   (** simulations that consist of one kind of request *)
   Definition step0 : step :=
-    {| s_reads := []; s_react := None; s_cells := []; s_mixes := []; s_copies := []; s_delete := None |}.
+    {| s_tag := 0; s_reads := []; s_react := None; s_cells := []; s_mixes := []; s_copies := []; s_delete := None |}.
   Definition st_reads (l : list (read_op C D)) : step :=
-    {| s_reads := l; s_react := None; s_cells := []; s_mixes := []; s_copies := []; s_delete := None |}.
-  Definition st_react (u : use_req) (sv : save_req) : step :=
-    {| s_reads := []; s_react := Some (u, sv); s_cells := []; s_mixes := []; s_copies := []; s_delete := None |}.
-  Definition st_cells (ns : list Z) : step :=
-    {| s_reads := []; s_react := None; s_cells := ns; s_mixes := []; s_copies := []; s_delete := None |}.
+    {| s_tag := 0; s_reads := l; s_react := None; s_cells := []; s_mixes := []; s_copies := []; s_delete := None |}.
+  Definition st_react (tag : Z) (u : use_req) (sv : save_req) : step :=
+    {| s_tag := tag; s_reads := []; s_react := Some (u, sv); s_cells := []; s_mixes := []; s_copies := []; s_delete := None |}.
+  Definition st_cells (tag : Z) (ns : list Z) : step :=
+    {| s_tag := tag; s_reads := []; s_react := None; s_cells := ns; s_mixes := []; s_copies := []; s_delete := None |}.
   Definition st_copies (l : list copy_opt) : step :=
-    {| s_reads := []; s_react := None; s_cells := []; s_mixes := []; s_copies := l; s_delete := None |}.
+    {| s_tag := 0; s_reads := []; s_react := None; s_cells := []; s_mixes := []; s_copies := l; s_delete := None |}.
   Definition st_delete (l : list del_opt) : step :=
-    {| s_reads := []; s_react := None; s_cells := []; s_mixes := []; s_copies := []; s_delete := Some l |}.
+    {| s_tag := 0; s_reads := []; s_react := None; s_cells := []; s_mixes := []; s_copies := []; s_delete := Some l |}.
 
   Lemma P_hand : gen_prims C T = hand_prims C.
   Proof. apply gen_prims_eq_hand. exact HT. Qed.
@@ -113,26 +113,33 @@ Section Theorems.
 
   Lemma wf_save1 u res (st : store) s : wf st -> wf (save1 (hand_prims C) u res st s).
   Proof.
-    intro W. unfold save1. destruct (mem_kind (fst (fst s)) savable_kinds && used_kind u (fst (fst s))); auto.
-    apply wf_supd; auto. apply wf_copies. apply wf_zins. apply W.
+    intro W. unfold save1. destruct (mem_kind (fst (fst s)) savable_kinds); auto.
+    apply wf_supd; auto. apply wf_copies. destruct (used_kind u (fst (fst s))); [apply wf_zins|]; apply W.
   Qed.
 
   Lemma wf_fold {X} (f : store -> X -> store) : (forall st x, wf st -> wf (f st x)) ->
       forall l st, wf st -> wf (fold_left f l st).
   Proof. intros H l. induction l as [|x l IH]; intros st W; simpl; auto. Qed.
 
-  Lemma wf_react u sv (st st' : store) : wf st -> do_react react (hand_prims C) u sv st = Some st' -> wf st'.
+  Lemma wf_react_core tag cell u sv (st st' : store) : wf st -> do_react_core react (hand_prims C) tag cell u sv st = Some st' -> wf st'.
   Proof.
-    intros W H. unfold do_react in H. destruct (use_missing u (look st)); [discriminate H|].
+    intros W H. unfold do_react_core in H. destruct (use_missing u (look st)); [discriminate H|].
     inversion H. apply wf_fold; auto. intros. apply wf_save1. assumption.
   Qed.
 
-  Lemma wf_run_cell (st : store) n : wf st -> wf (run_cell react (hand_prims C) st n).
+  Lemma wf_react tag u sv (st st' : store) : wf st -> do_react react (hand_prims C) tag u sv st = Some st' -> wf st'.
+  Proof.
+    intros W H. unfold do_react in H. destruct (reacts u).
+    - eapply wf_react_core; eauto.
+    - inversion H. subst. exact W.
+  Qed.
+
+  Lemma wf_run_cell tag (st : store) n : wf st -> wf (run_cell react (hand_prims C) tag st n).
   Proof.
     intro W. unfold run_cell. destruct (n <? 0); auto.
     destruct (negb (present st KSol n) && negb (present st KMix n)); auto.
-    destruct (do_react react (hand_prims C) (cell_use st n) (cell_save st n) st) eqn:Er; auto.
-    eapply wf_react; eauto.
+    destruct (do_react_core react (hand_prims C) tag n (cell_use st n) (cell_save st n) st) eqn:Er; auto.
+    eapply wf_react_core; eauto.
   Qed.
 
   Lemma wf_mix (st : store) r : wf st -> wf (do_mix mix_nums mixf (hand_prims C) st r).
@@ -152,7 +159,7 @@ Section Theorems.
     assert (forall st2, wf st2 ->
                wf (p_copy_ents (hand_prims C) (s_copies stp)
                      (fold_left (do_mix mix_nums mixf (hand_prims C)) (s_mixes stp)
-                        (fold_left (run_cell react (hand_prims C)) (s_cells stp) st2)))) as W5.
+                        (fold_left (run_cell react (hand_prims C) (s_tag stp)) (s_cells stp) st2)))) as W5.
     { intros st2 W2. cbn [p_copy_ents hand_prims]. intro k. unfold copy_entities. apply wf_fold_copy1.
       apply wf_fold; [intros; apply wf_mix; assumption|].
       apply wf_fold; [intros; apply wf_run_cell; assumption|]. exact W2. }
@@ -161,16 +168,16 @@ Section Theorems.
                    | Some opts => p_delete_ents (hand_prims C) opts
                        (p_copy_ents (hand_prims C) (s_copies stp)
                          (fold_left (do_mix mix_nums mixf (hand_prims C)) (s_mixes stp)
-                           (fold_left (run_cell react (hand_prims C)) (s_cells stp) st2)))
+                           (fold_left (run_cell react (hand_prims C) (s_tag stp)) (s_cells stp) st2)))
                    | None => p_copy_ents (hand_prims C) (s_copies stp)
                          (fold_left (do_mix mix_nums mixf (hand_prims C)) (s_mixes stp)
-                           (fold_left (run_cell react (hand_prims C)) (s_cells stp) st2))
+                           (fold_left (run_cell react (hand_prims C) (s_tag stp)) (s_cells stp) st2))
                    end)) as W6.
     { intros st2 W2. destruct (s_delete stp) as [opts|]; [|apply W5; exact W2].
       cbn [p_delete_ents hand_prims]. intro k. unfold delete_entities. apply wf_delete_map. apply (W5 st2 W2). }
     destruct (s_react stp) as [[u sv]|].
-    - destruct (do_react react (hand_prims C) u sv st1) as [st2|] eqn:Er; cbn [r_store r_dump].
-      + pose proof (wf_react u sv st1 st2 W1 Er) as W2. split; [apply W6 | apply W5]; exact W2.
+    - destruct (do_react react (hand_prims C) (s_tag stp) u sv st1) as [st2|] eqn:Er; cbn [r_store r_dump].
+      + pose proof (wf_react (s_tag stp) u sv st1 st2 W1 Er) as W2. split; [apply W6 | apply W5]; exact W2.
       + split; exact W1.
     - cbn [r_store r_dump]. split; [apply W6 | apply W5]; exact W1.
   Qed.
@@ -199,7 +206,7 @@ Section Theorems.
     rewrite H1, H2. rewrite H3 in Hs. clear H1 H2 H3.
     unfold sp_step in *. rewrite Hd in *.
     destruct (match s_react stp with
-              | Some (u, sv) => sp_react react u sv (fold_left (sp_read modify) (s_reads stp) (look st))
+              | Some (u, sv) => sp_react react (s_tag stp) u sv (fold_left (sp_read modify) (s_reads stp) (look st))
               | None => Some (fold_left (sp_read modify) (s_reads stp) (look st))
               end); simpl in *; [reflexivity | discriminate Hs].
   Qed.
@@ -333,7 +340,7 @@ Section Theorems.
       /\ let st'' := run_g [st_copies [COKind k src j j]; st_reads [RModify k src d]] st in
          look st'' k src = Some (modify k d c) /\ look st'' k j = Some c.
   Proof.
-    intros Hs Hj Hd. cbv zeta. unfold run. simpl.
+    intros Hs Hj Hd. cbv zeta. unfold run. cbn [fold_left].
     set (st1 := r_store (run_step_g (st_copies [COKind k src j j]) st)).
     assert (look st1 k j = Some c) as Hc1.
     { unfold st1. rewrite (copy_identical st k src j j c Hs Hd). rewrite kind_eqb_refl, !Z.leb_refl. reflexivity. }
@@ -350,25 +357,53 @@ Section Theorems.
   Qed.
 
   (** ** 7. SAVE writes the calculated result under exactly the given numbers *)
-  Theorem save_writes_exactly (st : store) (u : use_req) k n n_end :
+  Theorem save_writes_exactly (st : store) (tag : Z) (u : use_req) k n n_end :
+      reacts u = true ->
       use_missing u (look st) = false -> mem_kind k savable_kinds = true -> used_kind u k = true ->
-      forall k' i, look (r_store (run_step_g (st_react u [(k, n, n_end)]) st)) k' i
+      forall k' i, look (r_store (run_step_g (st_react tag u [(k, n, n_end)]) st)) k' i
                    = if kind_eqb k' k && ((i =? n) || ((n <? i) && (i <=? n_end)))
-                     then Some (react (used_of u (look st)) k) else look st k' i.
+                     then Some (react tag (-1) (used_of u (look st)) k) else look st k' i.
   Proof.
-    intros Hm Hk Hu k' i.
-    destruct (step_refines_spec (st_react u [(k, n, n_end)]) st) as (H1 & _ & _). rewrite H1. clear H1.
-    unfold sp_step. cbn [s_reads s_react st_react fold_left]. unfold sp_react. rewrite Hm.
+    intros Hr Hm Hk Hu k' i.
+    destruct (step_refines_spec (st_react tag u [(k, n, n_end)]) st) as (H1 & _ & _). rewrite H1. clear H1.
+    unfold sp_step. cbn [s_tag s_reads s_react st_react fold_left]. unfold sp_react, sp_react_core. rewrite Hr, Hm.
     cbn [fold_left]. unfold sp_save1. cbn [fst snd]. rewrite Hk, Hu. reflexivity.
   Qed.
 
-  (* a USE of a missing reactant stops the run and leaves the store as it was *)
-  Theorem use_missing_stops (st : store) (u : use_req) sv :
-      use_missing u (look st) = true ->
-      r_stopped (run_step_g (st_react u sv) st) = true /\ look (r_store (run_step_g (st_react u sv) st)) = look st.
+  (* SAVE of a kind that took no part in the calculation writes no result; the code still runs its
+     range copy, so an entity n that already exists is duplicated over n+1..n_end *)
+  Theorem save_unused_only_copies (st : store) (tag : Z) (u : use_req) k n n_end :
+      reacts u = true ->
+      use_missing u (look st) = false -> mem_kind k savable_kinds = true -> used_kind u k = false ->
+      forall k' i, look (r_store (run_step_g (st_react tag u [(k, n, n_end)]) st)) k' i
+                   = match look st k n with
+                     | Some c => if kind_eqb k' k && ((n <? i) && (i <=? n_end)) then Some c else look st k' i
+                     | None => look st k' i
+                     end.
   Proof.
-    intro Hm. destruct (step_refines_spec (st_react u sv) st) as (H1 & _ & H3). rewrite H1, H3.
-    unfold sp_step. cbn [s_reads s_react st_react fold_left]. unfold sp_react. rewrite Hm. split; reflexivity.
+    intros Hr Hm Hk Hu k' i.
+    destruct (step_refines_spec (st_react tag u [(k, n, n_end)]) st) as (H1 & _ & _). rewrite H1. clear H1.
+    unfold sp_step. cbn [s_tag s_reads s_react st_react fold_left]. unfold sp_react, sp_react_core. rewrite Hr, Hm.
+    cbn [fold_left]. unfold sp_save1. cbn [fst snd]. rewrite Hk, Hu. unfold sp_copies.
+    destruct (look st k n); reflexivity.
+  Qed.
+
+  (* a USE of a missing reactant stops the run and leaves the store as it was *)
+  Theorem use_missing_stops (st : store) (tag : Z) (u : use_req) sv :
+      reacts u = true -> use_missing u (look st) = true ->
+      r_stopped (run_step_g (st_react tag u sv) st) = true /\ look (r_store (run_step_g (st_react tag u sv) st)) = look st.
+  Proof.
+    intros Hr Hm. destruct (step_refines_spec (st_react tag u sv) st) as (H1 & _ & H3). rewrite H1, H3.
+    unfold sp_step. cbn [s_tag s_reads s_react st_react fold_left]. unfold sp_react, sp_react_core. rewrite Hr, Hm. split; reflexivity.
+  Qed.
+
+  (* USE of a solution alone is not a reaction: nothing is calculated, nothing is saved *)
+  Theorem use_solution_alone_is_noop (st : store) (tag : Z) (u : use_req) sv :
+      reacts u = false ->
+      r_stopped (run_step_g (st_react tag u sv) st) = false /\ look (r_store (run_step_g (st_react tag u sv) st)) = look st.
+  Proof.
+    intro Hr. destruct (step_refines_spec (st_react tag u sv) st) as (H1 & _ & H3). rewrite H1, H3.
+    unfold sp_step. cbn [s_tag s_reads s_react st_react fold_left]. unfold sp_react. rewrite Hr. split; reflexivity.
   Qed.
 
   (** ** 8. USE reads the current content: the oracle only sees what is stored under the used numbers *)
@@ -380,16 +415,24 @@ Section Theorems.
   Qed.
 
   (** ** 9. RUN_CELLS n = USE every reactant numbered n, SAVE it to n *)
-  Theorem runcells_eq_use_save (st : store) n : 0 <= n ->
+  Theorem runcells_eq_use_save (st : store) (tag : Z) n : 0 <= n ->
       present st KSol n = true \/ present st KMix n = true ->
-      r_store (run_step_g (st_cells [n]) st) = r_store (run_step_g (st_react (cell_use st n) (cell_save st n)) st).
+      reacts (cell_use st n) = true ->
+      (forall used k, react tag n used k = react tag (-1) used k) ->
+      r_store (run_step_g (st_cells tag [n]) st) = r_store (run_step_g (st_react tag (cell_use st n) (cell_save st n)) st).
   Proof.
-    intros Hn Hp. unfold run_step. cbn [s_reads s_react s_cells s_mixes s_copies s_delete st_cells st_react fold_left].
+    intros Hn Hp Hr Hor. rewrite P_hand. unfold run_step. cbn [s_tag s_reads s_react s_cells s_mixes s_copies s_delete st_cells st_react fold_left].
     unfold run_cell. destruct (Z.ltb_spec n 0); [lia|].
     assert (negb (present st KSol n) && negb (present st KMix n) = false) as Hc.
     { destruct Hp as [Hp|Hp]; rewrite Hp; simpl; auto. apply andb_false_r. }
-    rewrite Hc.
-    destruct (do_react react P (cell_use st n) (cell_save st n) st); cbn [r_store fold_left]; reflexivity.
+    rewrite Hc. unfold do_react. rewrite Hr.
+    assert (do_react_core react (hand_prims C) tag n (cell_use st n) (cell_save st n) st
+            = do_react_core react (hand_prims C) tag (-1) (cell_use st n) (cell_save st n) st) as Heq.
+    { unfold do_react_core. destruct (use_missing (cell_use st n) (look st)); auto.
+      replace (react tag n (used_of (cell_use st n) (look st))) with (react tag (-1) (used_of (cell_use st n) (look st)));
+        [reflexivity|]. apply functional_extensionality. intro k. symmetry. apply Hor. }
+    rewrite Heq.
+    destruct (do_react_core react (hand_prims C) tag (-1) (cell_use st n) (cell_save st n) st); cbn [r_store fold_left]; reflexivity.
   Qed.
 
   Lemma cell_use_spec (st : store) n k : k <> KSol -> k <> KKin ->
@@ -402,17 +445,16 @@ Section Theorems.
   Lemma cell_save_spec (st : store) n k a b :
       In (k, a, b) (cell_save st n) <->
       a = n /\ b = n /\ (k = KSol \/ (In k [KPP; KExch; KSurf; KGas; KSS] /\ present st k n = true)).
-  Proof.
-    unfold cell_save. simpl.
-    destruct (present st KPP n) eqn:E1; destruct (present st KExch n) eqn:E2; destruct (present st KSurf n) eqn:E3;
-      destruct (present st KGas n) eqn:E4; destruct (present st KSS n) eqn:E5; simpl;
-      split; intro H;
-      repeat match goal with
-             | H : _ \/ _ |- _ => destruct H
-             | H : _ /\ _ |- _ => destruct H
-             | H : (_, _, _) = (_, _, _) |- _ => inversion H; clear H; subst
-             | H : False |- _ => contradiction
-             end; subst; try congruence; try tauto.
+  Proof using.
+    unfold cell_save. split.
+    - intros [H|H].
+      + inversion H. subst. auto.
+      + apply in_flat_map in H. destruct H as [x [Hx H]].
+        destruct (present st x n) eqn:Ep; [|contradiction].
+        destruct H as [H|[]]. inversion H. subst. auto.
+    - intros (Ha & Hb & [Hk | [Hin Hp]]); subst.
+      + left. reflexivity.
+      + right. apply in_flat_map. exists k. split; auto. rewrite Hp. left. reflexivity.
   Qed.
 
   (** ** 10. the component list covers every element of every stored reactant, and nothing else *)
@@ -426,7 +468,7 @@ Section Theorems.
 
   Lemma mem_kind_in k l : mem_kind k l = true -> In k l.
   Proof.
-    unfold mem_kind. rewrite existsb_exists. intros [x [Hx E]]. apply kind_eqb_eq in E. subst. exact Hx.
+    unfold mem_kind. rewrite existsb_exists. intros [x [Hx Ex]]. apply kind_eqb_eq in Ex. subst. exact Hx.
   Qed.
 
   Lemma components_ok_in k : In k reactant_kinds -> In k (g_components T).
